@@ -264,7 +264,10 @@ func c15Judge(sc c15Scn, o *c15Obs, res *vs.Result) (string, string) {
 		if !o.returned {
 			return "dial-blocks-past-deadline|" + c15Servers[sc.Server], fmt.Sprintf("the dial is still blocked when nothing can happen any more (virtual time %v, deadline %v): %+v", res.Now, T, res.Blocked)
 		}
-		if o.dialReturned > T {
+		// lateness is judged where virtual time only advanced with every thread blocked; a schedule that
+		// lets timers land while the dialling thread is runnable delays that thread by an arbitrary amount
+		// (no deadline survives that) - such schedules are judged for "never returns" and panics only
+		if o.dialReturned > T && !res.TimerFirstTaken() {
 			return "dial-returns-late|" + c15Servers[sc.Server], fmt.Sprintf("returned at %v, deadline %v", o.dialReturned, T)
 		}
 		return "", ""
@@ -374,6 +377,7 @@ func C15(args []string) {
 		}
 		e.Check = func(choices []int, res *vs.Result) {
 			r.Evals.Add(1)
+			r.Heartbeat()
 			if c, d := c15Judge(sc, &o, res); c != "" {
 				v := sc
 				v.Choices = append([]int{}, choices...)
